@@ -560,6 +560,7 @@ var statusNames = map[nfsv4.Nfsstat4]string{
 	nfsv4.NFS4ERR_NOTSUPP:             "NOTSUPP",
 	nfsv4.NFS4ERR_SHARE_DENIED:        "SHARE_DENIED",
 	nfsv4.NFS4ERR_XDEV:                "XDEV",
+	nfsv4.NFS4ERR_OP_ILLEGAL:          "OP_ILLEGAL",
 }
 
 // ---------------------------------------------------------------- lease model
